@@ -370,16 +370,23 @@ def discardPoints (st : St) (j : Nat) : St :=
   | some ps => { st with rejPts := put j ps st.rejPts, validPts := erase j st.validPts }
   | none => st
 
+/-- the phase 8 accusation messages of a member's inbox -/
+def acc8Msgs (st : St) : List (Nat × List (Nat × Nat)) :=
+  st.prev.filterMap (fun m => match m with | .acc8 h x => some (h.sender, x) | _ => none)
+
+/-- `ResolvePublicKeySharePointsAccusationsMessages`, one accusation -/
+def resolve9Step (s : St) (a : Nat × Nat × Nat) : St :=
+  if s.status ≠ .ok then s else
+  match verdict9 (evidence s) s.q s.id s.n (pointsOf s a.2.1) a.1 a.2.1 a.2.2 with
+  | .fatal => if s.fixAbort then markDQ s a.1 else { s with status := .errNoPubKey }
+  | .accuser => markDQ s a.1
+  | .accused => discardPoints (markDQ s a.2.1) a.2.1
+  | .both => discardPoints (markDQ (markDQ s a.1) a.2.1) a.2.1
+
 def phase9 (st : St) : St :=
-  let msgs := st.prev.filterMap (fun m => match m with | .acc8 h x => some (h.sender, x) | _ => none)
+  let msgs := acc8Msgs st
   let st := if st.fixOrder then st else markInactive st (msgs.map (·.1))
-  let st := (accusations msgs).foldl (fun s (accuser, accused, key) =>
-    if s.status ≠ .ok then s else
-    match verdict9 (evidence s) s.q s.id s.n (pointsOf s accused) accuser accused key with
-    | .fatal => if s.fixAbort then markDQ s accuser else { s with status := .errNoPubKey }
-    | .accuser => markDQ s accuser
-    | .accused => discardPoints (markDQ s accused) accused
-    | .both => discardPoints (markDQ (markDQ s accuser) accused) accused) st
+  let st := (accusations msgs).foldl resolve9Step st
   if st.fixOrder && st.status = .ok then markInactive st (msgs.map (·.1)) else st
 
 /-! ## phases 6–8 -/
@@ -423,41 +430,57 @@ def addShare (rev : List (Nat × List (Nat × Nat))) (mis revealer s : Nat) : Li
   | some sh => put mis (put revealer s sh) rev
   | none => rev ++ [(mis, [(revealer, s)])]
 
-def phase11 (st : St) : St :=
-  let msgs := st.prev.filterMap (fun m => match m with | .reveal h x => some (h.sender, x) | _ => none)
-  let st := markInactive st (msgs.map (·.1))
-  let msgs := if st.fixDedup11 then dedup (·.1) msgs else msgs
-  let st :=
-    if st.fix11 then
-      -- all messages are validated against the state before any disqualification of this phase
-      ((dedup (·.1) msgs).filter (fun p => !isValidReveal st p.2)).foldl (fun s p => markDQ s p.1) st
-    else
-      (dedup (·.1) msgs).foldl (fun s (sender, ks) =>
-        if !isValidReveal s ks then markDQ s sender else s) st
-  let snap := st
-  -- in the unchanged tree recoverMisbehavedShares ranged over ALL messages (not deduplicated)
-  let all := msgs.flatMap (fun (revealer, ks) => ks.map (fun (mis, key) => (revealer, mis, key)))
-  let (st, rev) := all.foldl (fun (sr : St × List (Nat × List (Nat × Nat))) (revealer, mis, key) =>
-    let (s, rev) := sr
-    if s.status ≠ .ok then sr else
-    if s.id = mis then (markDQ s revealer, rev) else
-    if (if s.fix11 then isOperating snap mis else isOperating s mis) then sr else
-    if s.fixKey && !hasKey mis s.recvS then (markDQ s revealer, rev) else
-    match pubKeyOf s.evEph revealer mis with
-    | none => if s.fixAbort then (markDQ s revealer, rev) else ({ s with status := .errNoPubKey }, rev)
-    | some rpk =>
-      if rpk ≠ key then (markDQ s revealer, rev) else
-      match pubKeyOf s.evEph mis revealer with
+/-- the phase 10 reveal messages of a member's inbox -/
+def revealMsgs (st : St) : List (Nat × List (Nat × Nat)) :=
+  st.prev.filterMap (fun m => match m with | .reveal h x => some (h.sender, x) | _ => none)
+
+abbrev Revealed := List (Nat × List (Nat × Nat))
+
+/-- `recoverMisbehavedShares`, one revealed key (`snap` = group state at the start of the recovery) -/
+def recover11Step (snap : St) (sr : St × Revealed) (e : Nat × Nat × Nat) : St × Revealed :=
+  let (s, rev) := sr
+  let revealer := e.1
+  let mis := e.2.1
+  let key := e.2.2
+  if s.status ≠ .ok then sr else
+  if s.id = mis then (markDQ s revealer, rev) else
+  if (if s.fix11 then isOperating snap mis else isOperating s mis) then sr else
+  if s.fixKey && !hasKey mis s.recvS then (markDQ s revealer, rev) else
+  match pubKeyOf s.evEph revealer mis with
+  | none => if s.fixAbort then (markDQ s revealer, rev) else ({ s with status := .errNoPubKey }, rev)
+  | some rpk =>
+    if rpk ≠ key then (markDQ s revealer, rev) else
+    match pubKeyOf s.evEph mis revealer with
+    | none => (markDQ s revealer, rev)
+    | some mpk =>
+      match lookup mis s.evShares with
       | none => (markDQ s revealer, rev)
-      | some mpk =>
-        match lookup mis s.evShares with
+      | some sh =>
+        match decrypt (lookup revealer sh) (symKey key mpk) with
         | none => (markDQ s revealer, rev)
-        | some sh =>
-          match decrypt (lookup revealer sh) (symKey key mpk) with
-          | none => (markDQ s revealer, rev)
-          | some (sv, tv) =>
-            if validComms s.q sv tv ((lookup mis s.recvC).getD []) revealer then (s, addShare rev mis revealer sv)
-            else (markDQ s revealer, rev)) (st, [])
+        | some (sv, tv) =>
+          if validComms s.q sv tv ((lookup mis s.recvC).getD []) revealer then (s, addShare rev mis revealer sv)
+          else (markDQ s revealer, rev)
+
+/-- validation of the (deduplicated) reveal messages -/
+def validate11 (st : St) (msgs : List (Nat × List (Nat × Nat))) : St :=
+  if st.fix11 then
+    -- all messages are validated against the state before any disqualification of this phase
+    (((dedup (·.1) msgs).filter (fun p => !isValidReveal st p.2)).map (·.1)).foldl markDQ st
+  else
+    (dedup (·.1) msgs).foldl (fun s (sender, ks) =>
+      if !isValidReveal s ks then markDQ s sender else s) st
+
+def revealEntries (msgs : List (Nat × List (Nat × Nat))) : List (Nat × Nat × Nat) :=
+  msgs.flatMap (fun (revealer, ks) => ks.map (fun (mis, key) => (revealer, mis, key)))
+
+def phase11 (st : St) : St :=
+  let msgs := revealMsgs st
+  let st := markInactive st (msgs.map (·.1))
+  -- in the unchanged tree recoverMisbehavedShares ranged over ALL messages (not deduplicated)
+  let msgs := if st.fixDedup11 then dedup (·.1) msgs else msgs
+  let st := validate11 st msgs
+  let (st, rev) := (revealEntries msgs).foldl (recover11Step st) (st, [])
   if st.status ≠ .ok then st else
   let rev := st.expected.foldl (fun rv e =>
     match lookup e rv, lookup e st.recvS with
